@@ -1,5 +1,6 @@
 import CallbagModel.Inv.XViols
 import CallbagModel.Inv.Combine
+import CallbagModel.Inv.ComposeSafe
 import CallbagModel.Inv.Concat
 import CallbagModel.Inv.Flatten
 import CallbagModel.Inv.ForEach
@@ -67,6 +68,10 @@ theorem C01_pipe_of_two_relays {σ₁ σ₂ α β γ : Type} (k₁ : Relay.Kind 
     (h₁ : k₁.slotted = false → ∀ s a, (k₁.xfer s a).2 ≠ none) (h₂ : k₂.slotted = false → ∀ s b, (k₂.xfer s b).2 ≠ none) :
     ∀ s, SReach (compose (Relay.machine k₁) (Relay.machine k₂)) s → SafeFor 1 s :=
   fun s hs => safeFor_of_basicSafe _ s hs (Fuse.compose_relay_basicSafe k₁ k₂ h₁ h₂ s hs) 1 (by decide)
+
+theorem C01_pipeline {S1 L1 S2 L2 α β γ : Type} {M1 : Machine S1 L1 α β} {M2 : Machine S2 L2 β γ} (P1 : Pipeable M1) (P2 : Pipeable M2) :
+    ∀ s, SReach (compose M1 M2) s → SafeFor 1 s :=
+  fun s hs => safeFor_of_basicSafe _ s hs ((P1.compose P2).safe s hs) 1 (by decide)
 
 
 /-- `share`, EVERY conformant environment (nested fan-out included): the only phase-level violations share can commit are deliveries
